@@ -54,6 +54,9 @@ type entry struct {
 	who  string
 }
 
+var defaultRoutines = 8
+var referenceMode bool
+
 // tables of what replicas observed, keyed by the committed chain prefix
 var (
 	commits = map[string]*entry{} // chainKey -> AppHash, ReceiptsHash
@@ -166,6 +169,9 @@ func (r *replica) execute(si int, atxs []evmutil.ATx, want *[2][]interface{}) bo
 		txs = append(txs, evmutil.Concretize(t, variantOf(t)))
 	}
 	blk := evmutil.MakeBlock(int64(len(r.chain)+1), txs)
+	if r.routines < 0 {
+		r.routines = defaultRoutines // the package default: runtime.NumCPU()
+	}
 	evm.VerifSetValidateRoutines(r.routines)
 	var release chan struct{}
 	if r.gate {
@@ -185,6 +191,17 @@ func (r *replica) execute(si int, atxs []evmutil.ATx, want *[2][]interface{}) bo
 		verifhook.GateFn = nil
 	}
 	r.rep.Checks++
+	if hg, ok := pnc.(evmutil.Hang); ok && referenceMode {
+		b, _ := json.Marshal(refOut{Err: "hang:" + hg.Call + " " + hg.String() + fmt.Sprintf(" (1 signature-checking goroutine) on block %v\n", names(atxs)) + hg.Dump})
+		fmt.Println(string(b))
+		os.Exit(0)
+	}
+	if hg, ok := pnc.(evmutil.Hang); ok {
+		r.fail(si, action, "hang", true, "hang:"+hg.Call, fmt.Sprintf("%s (%d signature-checking goroutines; %s) on block %v: this replica is stuck at the height while replicas with more goroutines execute the block\n%s",
+			hg.String(), r.routines, r.who, names(atxs), hg.Dump), nil, nil)
+		r.rep.Emit()
+		os.Exit(0) // the stuck goroutines cannot be reclaimed
+	}
 	if pnc != nil || err != nil {
 		cls := "block"
 		if len(atxs) == 1 {
@@ -236,6 +253,13 @@ func (r *replica) commit(si int) bool {
 	action := fmt.Sprintf("Commit(h=%d)", len(r.chain)+1)
 	cr, err, pnc, stack := r.node.Commit(r.pending)
 	r.rep.Checks++
+	if hg, ok := pnc.(evmutil.Hang); ok {
+		r.fail(si, action, "hang", true, "hang:"+hg.Call, hg.String()+"\n"+hg.Dump, nil, nil)
+		if !referenceMode {
+			r.rep.Emit()
+		}
+		os.Exit(0)
+	}
 	if pnc != nil || err != nil {
 		r.fail(si, action, "panic", true, "panic:Commit", fmt.Sprintf("OnCommit failed: %v %v\n%s", pnc, err, stack), nil, nil)
 		r.aborted = true
@@ -524,6 +548,7 @@ type refOut struct {
 // isolatedReference runs in a process of its own: it commits the blocks of one behaviour continuously, answers no
 // contract-call query, and prints what the commit hook returned for every height plus the final state queries.
 func isolatedReference(path string) {
+	referenceMode = true
 	out := refOut{Commits: map[string]map[string]string{}, Chains: map[string]string{}}
 	defer func() {
 		b, _ := json.Marshal(out)
@@ -605,6 +630,11 @@ func spawnReference(r *replica, tr mbt.Trace) error {
 	if err := json.Unmarshal([]byte(lines[len(lines)-1]), &out); err != nil {
 		return err
 	}
+	if strings.HasPrefix(out.Err, "hang:") {
+		r.fail(-1, "Execute(isolated reference)", "hang", true, "hang:OnExecute", "the isolated reference replica of "+tr.ID+" is stuck: "+strings.TrimPrefix(out.Err, "hang:"), nil, nil)
+		r.rep.Emit()
+		os.Exit(0)
+	}
 	if out.Err != "" {
 		return fmt.Errorf("%s", out.Err)
 	}
@@ -637,6 +667,7 @@ func main() {
 		os.Exit(2)
 	}
 	debug.SetGCPercent(400)
+	defaultRoutines = evm.VerifSetValidateRoutines(1)
 	rep := mbt.NewReport()
 	routineChoices := []int{1, 2, 4, 8, 16, 3}
 	histories := map[string]bool{}
